@@ -5,6 +5,7 @@
 mod u1;
 mod u1b;
 mod u10;
+mod u10b;
 mod u2;
 mod u2b;
 mod u3;
@@ -44,6 +45,9 @@ fn main() {
     ("u2b", "replay") => u2b::replay(rest),
     ("u10", "find") => u10::find(rest),
     ("u10", "replay") => u10::replay(rest),
+    ("u10b", "find") => u10b::find(rest),
+    ("u10b", "show") => u10b::show(rest),
+    ("u10b", "replay") => u10b::replay(rest),
     ("u3b", "find") => u3b::find(rest),
     ("u3b", "replay") => u3b::replay(rest),
     ("u4", "find") => u4::find(rest),
